@@ -17,6 +17,7 @@ CONSTANTS
   Horizon = 400
   Fx <- FxAll
   Assume = FALSE
+  CancelAts = {}
 INVARIANT NoViolation
 INVARIANT NoHang
 INVARIANT TimeBounded
